@@ -211,13 +211,21 @@ def parse_render(html):
                 m = SPAN.match(t)
                 if not m:
                     raise ValueError("span without a colour: %r" % t)
-                if i + 2 >= len(toks) or toks[i + 1].startswith("<") or not re.match(r"^</span\s*>$", toks[i + 2], re.I):
+                # the residue is the text inside the span; formatting tags around it (<b>, <u>, ...) are neutral
+                j, text = i + 1, []
+                while j < end and not re.match(r"^</span\s*>$", toks[j], re.I):
+                    if re.match(r"^<span[\s>]", toks[j], re.I):
+                        raise ValueError("span inside a span at token %d" % j)
+                    if not toks[j].startswith("<"):
+                        text.append(toks[j])
+                    j += 1
+                if j >= end or not text:
                     raise ValueError("malformed span at token %d" % i)
-                res.append(toks[i + 1])
+                res.append("".join(text).strip("\n\r\t"))
                 cols.append(m.group(1))
                 gaps.append(gap)
                 gap = []
-                i += 3
+                i = j + 1
                 continue
             i += 1                      # any other tag (wrapper, formatting): neutral
         else:
@@ -255,6 +263,8 @@ def check_render(html, seq, pal):
         if (g.count("br") == 1) != want_br or g.count("br") > 1:
             return "gap before residue %d has %d line breaks (block-of-50 start: %s)" % (i, g.count("br"), want_br)
     if "sp" in trailing or "br" in trailing:
+        # a space or a break after the last residue opens a block that holds nothing: the statement places spaces and
+        # breaks at the opening of blocks of residues, and nowhere else (line-formatting white space such as "\n" is neutral)
         return "separator after the last residue"
     stripped = re.sub(r"<[^>]*>", "", html)
     stripped = re.sub(r"\s+", "", stripped)
@@ -393,7 +403,7 @@ def execute(plan, ctx):
             seqs.append(cs)
             start = None
             html = child.get_HTMLColorString()
-            for cand in ((pals[i],) if op["via"] in ("deepcopy", "pickle") else (default, pals[i])):
+            for cand in ((pals[i], default) if op["via"] in ("deepcopy", "pickle") else (default, pals[i])):
                 if check_render(html, cs, cand) is None:
                     start = dict(cand)
                     break
@@ -468,6 +478,13 @@ def execute(plan, ctx):
         ctx.count("updates")
         ctx.log.emit("set", o=i, valid=valid, j=op.get("j"), how=op.get("how"), raised=type(raised).__name__ if raised else None)
         ctx.sig("set", custom[i], op.get("j", "ok"), op.get("how", "-"), len(objs))
+        junk_bad = any((not isinstance(v_, str)) or v_ not in COLOURS for k_, v_ in list(passed.items()) if not (isinstance(k_, str) and k_ in AA)) if valid else False
+        if valid and raised is not None and junk_bad:
+            # all 20 residues have a standard colour, but an entry that is not a residue carries a non-standard one:
+            # a validator that looks at every value may refuse this dictionary, one that looks at the residues accepts it
+            ctx.probe("rejected_for_a_non_residue_entry")
+            valid = False
+            op = dict(op, j=None, how="junk")
         if valid:
             if raised is not None:
                 raise Violation("valid_palette_rejected", "set:valid",
@@ -487,8 +504,17 @@ def execute(plan, ctx):
             if op.get("j") == 19:
                 ctx.probe("reject_at_last_key")
             if raised is None:
-                raise Violation("invalid_palette_accepted", "set:invalid",
-                                "invalid dictionary (step %s, %s) was accepted" % (op.get("j"), op.get("how")))
+                # no exception: an implementation may also refuse quietly (return value, warning).  What counts is
+                # the effect: the object must still render under the palette it had
+                ctx.probe("invalid_update_returned_normally")
+                try:
+                    html_now = objs[i].get_HTMLColorString()
+                    still_old = check_render(html_now, seqs[i], pals[i]) is None
+                except Exception:
+                    still_old = False
+                if not still_old:
+                    raise Violation("invalid_palette_accepted", "set:invalid",
+                                    "invalid dictionary (step %s, %s) was accepted: no exception, and the object no longer renders under its previous palette" % (op.get("j"), op.get("how")))
         # every live object must still render under *its* reference palette (unless the plan asks for
         # several updates in a row without a render in between: rendering is itself a call that may touch caches)
         if op.get("no_render_after"):
